@@ -65,10 +65,67 @@ theorem applyTheme_fontSize (rules : Option Rules) (o : Obj) (s : ShapeStyle) :
   | none => simp only [applyTheme, apply_ite ShapeStyle.fontSize, ite_self]
   | some r => simp only [applyTheme, apply_ite ShapeStyle.fontSize, ite_self, c4Rules_fontSize]
 
+theorem runStep_fontSize (rules : Option Rules) (o : Obj) (st : Step) (s : ShapeStyle) :
+    (runStep rules o st s).fontSize = s.fontSize := by
+  cases st with
+  | applyStyles => rfl
+  | applyTheme => exact applyTheme_fontSize rules o s
+  | textColor => rfl
+  | c4FontColor =>
+    cases rules with
+    | none => rfl
+    | some r => simp only [runStep, apply_ite ShapeStyle.fontSize, ite_self]
+
+theorem runSteps_fontSize (rules : Option Rules) (o : Obj) (steps : List Step) (s : ShapeStyle) :
+    (runSteps rules o steps s).fontSize = s.fontSize := by
+  induction steps generalizing s with
+  | nil => rfl
+  | cons st r ih =>
+    simp only [runSteps, List.foldl_cons] at ih ⊢
+    rw [ih, runStep_fontSize]
+
+theorem initShape_fontSize (o : Obj) : (initShape o).fontSize = textFontSize o := by
+  simp only [initShape, apply_ite ShapeStyle.fontSize, ite_self]
+
 theorem preStyled_fontSize (rules : Option Rules) (o : Obj) : (preStyled rules o).fontSize = textFontSize o := by
-  cases rules with
-  | none => simp only [preStyled, applyTheme_fontSize, applyStyles_fontSize, apply_ite ShapeStyle.fontSize, ite_self]
-  | some r => simp only [preStyled, applyTheme_fontSize, applyStyles_fontSize, apply_ite ShapeStyle.fontSize, ite_self]
+  unfold preStyled; rw [runSteps_fontSize, initShape_fontSize]
+
+/-- **the pipeline read off the current `toShape` ends with `applyStyles`** (regenerated list): the last word on every
+    style field belongs to the user's settings. Removing or moving the second `applyStyles` falsifies this. -/
+theorem toShapeSteps_end_with_applyStyles :
+    D2V.Gen.Export.toShapeSteps = D2V.Gen.Export.toShapeSteps.dropLast ++ [Step.applyStyles] := by decide
+
+theorem styled_eq (rules : Option Rules) (o : Obj) : styled rules o = applyStyles o (preStyled rules o) := by
+  unfold styled preStyled runSteps
+  conv => lhs; rw [toShapeSteps_end_with_applyStyles]
+  rw [List.foldl_append]
+  rfl
+
+/-- the guarded assignments of the current `applyStyles` are the ones the model implements: same style field, same
+    shape field, same `strconv` reader, none missing (regenerated table) -/
+theorem applyStyles_table_as_modelled :
+    D2V.Gen.Export.applyStylesTable =
+      [("Opacity", "Opacity", .parseFloat), ("StrokeDash", "StrokeDash", .parseFloat), ("Fill", "Fill", .verbatim),
+       ("FillPattern", "FillPattern", .verbatim), ("Stroke", "Stroke", .verbatim), ("StrokeWidth", "StrokeWidth", .atoi),
+       ("Shadow", "Shadow", .parseBool), ("ThreeDee", "ThreeDee", .parseBool), ("Multiple", "Multiple", .parseBool),
+       ("BorderRadius", "BorderRadius", .atoi), ("FontColor", "Color", .verbatim), ("Italic", "Italic", .parseBool),
+       ("Bold", "Bold", .parseBool), ("Underline", "Underline", .parseBool), ("Font", "FontFamily", .verbatim),
+       ("DoubleBorder", "DoubleBorder", .parseBool), ("IconBorderRadius", "IconBorderRadius", .atoi)] ∧
+    D2V.Gen.Export.applyStylesTextFill = true := by decide
+
+/-- the same for `toConnection` (as a set: the model is field-wise) -/
+theorem toConnection_table_as_modelled :
+    ∀ r ∈ [("BorderRadius", "BorderRadius", Reader.parseFloat), ("Opacity", "Opacity", .parseFloat), ("StrokeDash", "StrokeDash", .parseFloat),
+           ("Stroke", "Stroke", .verbatim), ("StrokeWidth", "StrokeWidth", .atoi), ("Fill", "Fill", .verbatim),
+           ("FontSize", "FontSize", .atoi), ("Animated", "Animated", .parseBool), ("Italic", "Italic", .parseBool),
+           ("FontColor", "Color", .verbatim), ("Bold", "Bold", .parseBool), ("Underline", "Underline", .parseBool),
+           ("Font", "FontFamily", .verbatim)], r ∈ D2V.Gen.Export.toConnectionTable := by decide
+
+/-- every assignment of a C4 block (in `applyTheme` and in `toConnection`) sits under the `Style.X == nil` guard of the
+    style field `X` that `applyStyles` / `toConnection` writes into the same exported field -/
+theorem c4_assignments_guarded :
+    (∀ g ∈ D2V.Gen.Export.applyThemeC4, ∃ r ∈ D2V.Gen.Export.applyStylesTable, r.1 = g.1 ∧ r.2.1 = g.2) ∧
+    (∀ g ∈ D2V.Gen.Export.toConnectionC4, ∃ r ∈ D2V.Gen.Export.toConnectionTable, r.1 = g.1 ∧ r.2.1 = g.2) := by decide
 
 /-- **C28 (shapes)**: for every theme rule set (also none), every object, and each style attribute the user set, the
     exported shape carries the user's value (strings verbatim, numbers and booleans as `strconv` reads them). -/
@@ -91,6 +148,7 @@ theorem C28_user_style_wins (rules : Option Rules) (o : Obj) :
     (∀ v, o.style.underline = some v → (toShapeStyle rules o).underline = goBool v) ∧
     (∀ v, o.style.animated = some v → (toShapeStyle rules o).animated = goBool v) := by
   obtain ⟨fs, an, h⟩ := toShapeStyle_eq rules o
+  rw [styled_eq] at h
   refine ⟨?_, ?_, ?_, ?_, ?_, ?_, ?_, ?_, ?_, ?_, ?_, ?_, ?_, ?_, ?_, ?_, ?_⟩
   · intro v hv; rw [h]; exact applyStyles_fill o _ hv
   · intro v hv; rw [h]; exact applyStyles_stroke o _ hv
@@ -116,7 +174,7 @@ theorem C28_user_style_wins (rules : Option Rules) (o : Obj) :
 theorem C28_user_font_size (rules : Option Rules) (o : Obj) (hc : o.headerConsistent = true) (v : String)
     (hv : o.style.fontSize = some v) : (toShapeStyle rules o).fontSize = goInt v := by
   have hfs : (styled rules o).fontSize = textFontSize o := by
-    unfold styled; rw [applyStyles_fontSize, preStyled_fontSize]
+    rw [styled_eq, applyStyles_fontSize, preStyled_fontSize]
   unfold Obj.headerConsistent at hc
   unfold toShapeStyle
   simp only []
